@@ -5,9 +5,13 @@ import re
 def unsafe_decode(string):
   return json.loads(string)
 
+def _not_json(constant):
+  # (Python's parser accepts NaN, Infinity and -Infinity, which are not JSON)
+  raise ValueError("{} is not a JSON value".format(constant))
+
 def decode(string):
   validate_all_printable(string)
-  return unsafe_decode(string)
+  return json.loads(string, parse_constant = _not_json)
 
 def validate_encoded(string):
   # both regex and JSON parse are necessary,
@@ -15,7 +19,7 @@ def validate_encoded(string):
   # JSON can contain forbidden chars (non-printable)
   validate_all_printable(string)
   try:
-    json.loads(string)
+    json.loads(string, parse_constant = _not_json)
   except Exception as err:
     raise gfapy.FormatError(
     "{} is not a valid JSON string\n".format(repr(string))+
@@ -42,7 +46,11 @@ def encode(obj):
     validate_encoded(obj)
     return obj
   elif isinstance(obj, list) or isinstance(obj, dict):
-    string = json.dumps(obj)
+    try:
+      string = json.dumps(obj, allow_nan = False)
+    except ValueError as err:
+      raise gfapy.ValueError(
+        "The value cannot be represented in JSON: {}".format(err)) from err
     validate_all_printable(string)
     return string
   else:
